@@ -192,7 +192,8 @@ pub fn gen(prop: &str, tier: &str, seed: u64, out: &mut Vec<String>) {
                             continue;
                         }
                         // all five encoders and all store kinds take turns ("the encoding" is every encoder's)
-                        let (fl, mode) = *r.pick(&[("sync", "val"), ("sync", "plain"), ("fsm", "val"), ("fsm", "plain"), ("mixed", "val")]);
+                        // (`syncw<k>`: the sync encoders into a sink that accepts at most k bytes per write call)
+                        let (fl, mode) = *r.pick(&[("sync", "val"), ("sync", "plain"), ("fsm", "val"), ("fsm", "plain"), ("mixed", "val"), ("syncw7", "val"), ("syncw1000", "val"), ("syncw63", "plain"), ("syncw1025", "plain")]);
                         let store = *r.pick(&["preMem", "postMem", "preIo", "postIo"]);
                         out.push(format!("enc {b} {bs} {store} {fl} {mode} {} -", nat_list(&q)));
                     }
@@ -344,6 +345,15 @@ pub fn gen(prop: &str, tier: &str, seed: u64, out: &mut Vec<String>) {
                                 // around item boundaries: multiples of 64 and of 1024 +- 1
                                 for k in [0u64, 1, 63, 64, 65, 127, 128, 129, 1087, 1088, 1089] {
                                     out.push(format!("{} {b} {size} {bs} {ql} {src} 0:0:{k}", dec_op(&mut r)));
+                                }
+                                // the same through the decode_ranges drivers (what they RETURN must be the typed error)
+                                for _ in 0..if t { 8 } else { 3 } {
+                                    let fl = if r.chance(1, 2) { "sync" } else { "fsm" };
+                                    let sink = *r.pick(SINKS);
+                                    let k = if r.chance(1, 2) { r.below(200.min(len + 1)) } else { r.below(len + 1) };
+                                    out.push(format!("decr {fl} {sink} {b} {bs} {ql} {src} 0:0:{k} 7"));
+                                    let p = if r.chance(1, 2) { r.below(200.min(len + 1)) } else { r.below(len + 1) };
+                                    out.push(format!("decr {fl} {sink} {b} {bs} {ql} {src} 0:0:$~{p}^{} 7", 1 + r.below(255)));
                                 }
                             }
                             "C16" => {
